@@ -77,6 +77,17 @@ CLAIMED.update({
     },
 })
 
+CLAIMED.update({
+    "C11": {
+        "text": "Exhaustive enumeration of XRDs built from choices: 18 spec-property variants (each machinery key shadowed with a different type, all at once, none) x 7 status variants x name maxLength x required lists x CEL rules x oneOf / preserve-unknown-fields / descriptions, 10 version layouts with exactly one referenceable version, claim names absent / present / colliding in each name, default policies, conversion; oracle: structural (every version, one storage version = referenceable, scope, controller reference, author properties / required / rules preserved) and differential (the CRD rendered with colliding author properties equals the one rendered without them; machinery keys equal an independent key->type table; independent of map iteration order); all 22x22 (old,new) update pairs and all creates go through ValidateUpdate/ValidateCreate and the real admission webhook; the real definition and offered reconcilers render the same CRDs over simkube.",
+        "technique": "exhaustive small-scope input enumeration with structural and differential oracles on the real xcrd / validation / webhook code",
+    },
+    "C15": {
+        "text": "The real revision reconciler (image backend, parser, per-type linters, version gate, signature gate, filesystem package cache) with a recording establisher over: the full product revision type x meta kind {each type, none, two} x up to 1 (thorough 2) objects of 6 kinds x 4 image layouts x 4 crossplane constraints x ignore flag x 4 signature-gate states, each reconciled twice (registry path then cache path) against the table of contributing/specifications/xpkg.md; every registry read-fault position (each 64 bytes and every YAML document boundary +-1, on the validation read or the parse read) and every single filesystem fault of the cache from 4 initial cache states, each followed by fault-free reconciles: the establisher never receives a set that differs from the image's; and the xpkg build round trip for every allowed object subset.",
+        "technique": "exhaustive input-product enumeration plus exhaustive single-fault (read position / filesystem operation) enumeration on the real reconciler",
+    },
+})
+
 PENDING_REASON = "not claimed yet: the check for this property is still being built (design in DESIGN.md section 3); no technique switch is intended"
 
 
